@@ -2348,6 +2348,65 @@ fn gen_c08(ctx: &mut Ctx) {
         let ok = toks.len() >= 4 && toks[2].starts_with(&want);
         ctx.monitor(ok, "C08-closed-loop", &line, &format!("send_pages over a source that talks to sign {} gave {} wanted {}...", other, toks.get(2).unwrap_or(&"?"), want));
     }
+    // long-lived Sign objects, two handles (A and B) for one address: whatever a handle remembers of its own earlier calls,
+    // the other handle (or a shut-down, or a reconfiguration as another type) may have changed the sign since -- every
+    // configure must still configure and every send must still arrive bit for bit
+    for k in 0..(if thorough { 96 } else { 24 }) {
+        let own = [3u16, 0xFFFF, 0x0103][k % 3];
+        let style = if k % 2 == 0 { PageFlipStyle::Manual } else { PageFlipStyle::Automatic };
+        let t = [5usize, 3, 2, 8][k % 4];
+        let t2 = [2usize, 5, 9, 3][k / 4 % 4];
+        let (w, h) = SIGN_SIZES[t];
+        let (w2, h2) = SIGN_SIZES[t2];
+        let pg = |id: u8, rng: &mut Rng| small_page(id, w, h, rng);
+        let p_first = vec![pg(1, &mut rng)];
+        let p_last: Vec<String> = (0..1 + k % 2).map(|j| pg(20 + j as u8, &mut rng)).collect();
+        let q = small_page(9, w2, h2, &mut rng);
+        let mut ops: Vec<String> = vec![format!("CFG.{}.{}", own, t), format!("SND.{}.{}", own, p_first.join("+"))];
+        // what happens to the sign behind handle A's back
+        match k / 3 % 4 {
+            0 => ops.extend([format!("BYE.{}", own), format!("B:CFG.{}.{}", own, t2), format!("B:SND.{}.{}", own, q)]),
+            1 => ops.extend([format!("BYE.{}", own), format!("B:CIN.{}.{}", own, t2)]),
+            2 => ops.extend([format!("B:CFG.{}.{}", own, t2), format!("B:SND.{}.{}", own, q), format!("B:BYE.{}", own)]),
+            _ => ops.extend([format!("SHW.{}.50", own), format!("BYE.{}", own), format!("BYE.{}", own), format!("B:CFG.{}.{}", own, t2)]),
+        }
+        ops.push(format!("{}.{}.{}", if k % 5 == 0 { "CIN" } else { "CFG" }, own, t));
+        ops.push(format!("SND.{}.{}", own, p_last.join("+")));
+        ops.push(format!("SHW.{}.50", own));
+        let line = format!("CLS 1 {} {} | {}", own, str_style(style), ops.join(" "));
+        let res = ctx.case(line.clone(), true, "two-handles-one-sign");
+        let toks: Vec<&str> = res.split(" # ").next().unwrap_or("").split(' ').filter(|s| !s.is_empty()).collect();
+        let manual = style == PageFlipStyle::Manual;
+        // CIN may legitimately find the sign ready as another type and leave it; the sends are judged only after a CFG
+        if k % 5 != 0 && toks.len() == ops.len() {
+            let n = toks.len();
+            let want_cfg = format!("DONE/CRX.{}.0.", t);
+            let want_snd = format!("DONE.{}/{}.{}.{}.{}", if manual { "M" } else { "A" }, if manual { "PLD" } else { "SHP" }, t, p_last.len(), hash_page_literals(&p_last));
+            let ok = toks[n - 3].starts_with(&want_cfg) && toks[n - 2] == want_snd;
+            ctx.monitor(ok, "C08-closed-loop", &line, &format!("after the other handle's calls: configure gave {} and send_pages gave {} (wanted {}... and {})", toks[n - 3], toks[n - 2], want_cfg, want_snd));
+        } else if k % 5 != 0 {
+            ctx.monitor(false, "C08-closed-loop", &line, &format!("unexpected result {}", &res[..res.len().min(200)]));
+        }
+    }
+    // a page source that configures THIS sign and sends it other pages while the outer send_pages is draining it: the nested
+    // calls run their course (the sign ends up with the nested transfer's pages; the outer call, overtaken, reports a
+    // protocol error)
+    for k in 0..(if thorough { 24 } else { 6 }) {
+        let own = [3u16, 0xFFFF][k % 2];
+        let style = if k % 2 == 0 { PageFlipStyle::Manual } else { PageFlipStyle::Automatic };
+        let t = [5usize, 3, 2][k % 3];
+        let (w, h) = SIGN_SIZES[t];
+        let outer: Vec<String> = (0..1 + k % 2).map(|j| small_page(j as u8 + 1, w, h, &mut rng)).collect();
+        let inner = vec![small_page(77, w, h, &mut rng)];
+        let line = format!("CL 1 {} {} | CFG.{}.{} SNN.{}.CFG:{}:{}/SND:{}:{}.{} QS0", own, str_style(style), own, t, own, own, t, own, inner[0].replace('.', ":"), outer.join("+"));
+        let line = line.trim_end_matches(" QS0").to_string();
+        let res = ctx.case(line.clone(), true, "source-reconfigures-and-sends-to-this-sign");
+        let toks: Vec<&str> = res.split(" # ").next().unwrap_or("").split(' ').filter(|s| !s.is_empty()).collect();
+        let manual = style == PageFlipStyle::Manual;
+        let want = format!("PROTO/{}.{}.1.{}", if manual { "PLD" } else { "SHP" }, t, hash_page_literals(&inner));
+        let ok = toks.len() == 2 && toks[1] == want;
+        ctx.monitor(ok, "C08-closed-loop", &line, &format!("wanted {} got {}", want, toks.get(1).unwrap_or(&"?")));
+    }
     ctx.notes.insert("prior-states".into(), prior_count.to_string());
     // page flipping across repeated sends: send L1 pages, flip part of the way through them, send L2 pages (fewer, the
     // same number, more, none), keep flipping -- on manual and automatic signs
